@@ -421,6 +421,27 @@ def run(sh):
         rng = random.Random(core.stable_int(sh.seed, 'C10dec', i))
         run_case(sh, gen_case(rng, pol[i % 4], decimal=True))
         sh.count('decimal_cases')
+    # aimed: a holder of two pools gives both back while one of them stays over-committed after a capacity cut (another
+    # holder still has more of it than the pool now has); a request waiting for the OTHER pool fits at once
+    for i in sh.share(40 if sh.tier == 'quick' else 2000):
+        rng = random.Random(core.stable_int(sh.seed, 'C10over', i))
+        a, b, c0 = rng.choice([2, 3]), rng.choice([1, 2]), rng.choice([1, 2])
+        both = [['r0', c0], ['r1', b]]
+        if rng.random() < 0.3:
+            both.reverse()
+        t = [rng.randrange(1, 8) / 4.0 for _ in range(4)]
+        ts = [0.0, t[0], t[0] + t[1], t[0] + t[1] + t[2], t[0] + t[1] + t[2] + t[3]]
+        script = [[0.0, 9, ['reserve', [['r1', a]]]],
+                  [ts[1], rng.choice(PRIOS), ['reserve', both]],
+                  [ts[2], rng.choice(PRIOS), ['add', 'r1', -(b + 1)]],
+                  [ts[2] if rng.random() < 0.3 else ts[3], rng.choice(PRIOS),
+                   ['register', [['r0', rng.choice([1, c0])]], rng.choice(['reserve', 'none', 'reserve_release_later'])]],
+                  [ts[4], rng.choice(PRIOS), ['release', 1]]]
+        script.sort(key=lambda e: e[0])
+        case = {'engine': 'waiters', 'resources': {'r0': c0, 'r1': a + b}, 'script': script, 'horizon': ts[4] + 3.0,
+                'tie': pol[i % 4], 'tie_seed': i, 'aimed': 'overcommitted_pool'}
+        run_case(sh, case)
+        sh.count('overcommitted_pool_cases')
     # scale: very many requests becoming feasible at one availability check
     for i in sh.share(4 if sh.tier == 'quick' else 64):
         rng = random.Random(core.stable_int(sh.seed, 'C10mass', i))
